@@ -211,6 +211,38 @@ func clientMain(args []string) {
 	for i := 0; i < extraProxies; i++ {
 		tcp(fmt.Sprintf("bulk-%d", i), nil)
 	}
+	// proxies with a tcp health check (1 s) against a local service that goes down and comes up every 300 ms
+	if len(args) > 5 {
+		if n, _ := strconv.Atoi(args[5]); n > 0 {
+			fl, err := net.Listen("tcp", net.JoinHostPort(ip, "0"))
+			if err != nil {
+				fail(err)
+			}
+			fport := fl.Addr().(*net.TCPAddr).Port
+			go func() {
+				l := fl
+				for {
+					time.Sleep(300 * time.Millisecond)
+					if l != nil {
+						l.Close()
+						l = nil
+					} else {
+						l, _ = net.Listen("tcp", net.JoinHostPort(ip, fmt.Sprint(fport)))
+					}
+				}
+			}()
+			for i := 0; i < n; i++ {
+				port := fport
+				if i%4 != 3 {
+					port = echo.Port() // always up: its first probe of every session flips the status
+				}
+				tcp(fmt.Sprintf("hc-%d", i), func(b *v1.ProxyBaseConfig) {
+					b.LocalPort = port
+					b.HealthCheck = v1.HealthCheckConfig{Type: "tcp", IntervalSeconds: 1, TimeoutSeconds: 1, MaxFailed: 1}
+				})
+			}
+		}
+	}
 
 	var vcs []v1.VisitorConfigurer
 	ports := []int{}
